@@ -493,6 +493,120 @@ theorem delta_no_loop (s : State) (r : DReq) (s1 : State)
     exact delta_ack_silent _ { ty := r.ty, sub := [], unsub := [], init := [], nonce := n, err := none }
       { w with names := nn, nonceSent := n } rfl hs2 rfl hal rfl rfl rfl
 
+/-! ## Delta: the record is the fold of the subscribe / unsubscribe history -/
+
+theorem mem_insertAll (res : List String) (c : Bool) (xs : List String) (x : String) :
+    x ∈ (insertAll res c xs).1 ↔ x ∈ res ∨ x ∈ xs := by
+  induction xs generalizing res c with
+  | nil => simp [insertAll]
+  | cons y ys ih =>
+    simp only [insertAll]
+    by_cases h : res.contains y = true
+    · simp only [h, if_true, ih, List.mem_cons]
+      constructor
+      · rintro (h1 | h1)
+        · exact Or.inl h1
+        · exact Or.inr (Or.inr h1)
+      · rintro (h1 | h1 | h1)
+        · exact Or.inl h1
+        · subst h1; exact Or.inl (by simpa using h)
+        · exact Or.inr h1
+    · have hf : res.contains y = false := by simpa using h
+      simp only [hf, Bool.false_eq_true, if_false, ih]
+      simp [or_assoc]
+
+theorem mem_eraseAll (res : List String) (c : Bool) (xs : List String) (x : String) :
+    x ∈ (eraseAll res c xs).1 ↔ x ∈ res ∧ x ∉ xs := by
+  induction xs generalizing res c with
+  | nil => simp [eraseAll]
+  | cons y ys ih =>
+    simp only [eraseAll]
+    by_cases h : res.contains y = true
+    · simp only [h, if_true, ih, List.mem_filter, List.mem_cons, not_or]
+      constructor
+      · rintro ⟨⟨h1, h2⟩, h3⟩
+        exact ⟨h1, by simpa using h2, h3⟩
+      · rintro ⟨h1, h2, h3⟩
+        exact ⟨⟨h1, by simpa using h2⟩, h3⟩
+    · have hf : res.contains y = false := by simpa using h
+      simp only [hf, Bool.false_eq_true, if_false, ih, List.mem_cons, not_or]
+      constructor
+      · rintro ⟨h1, h3⟩
+        refine ⟨h1, ?_, h3⟩
+        intro e
+        subst e
+        have : x ∉ res := by simpa using hf
+        exact this h1
+      · rintro ⟨h1, _, h3⟩
+        exact ⟨h1, h3⟩
+
+/-- `deltaWatchedResources` as a set: everything on record, subscribed or reported as retained,
+    minus what is unsubscribed, minus the synthetic `*`. -/
+theorem mem_deltaWatched (existing : List String) (r : DReq) (x : String) :
+    x ∈ (deltaWatched existing r).1 ↔
+      ((x ∈ existing ∨ x ∈ r.sub ∨ x ∈ r.init) ∧ x ∉ r.unsub ∧ x ≠ "*") := by
+  unfold deltaWatched
+  simp only []
+  generalize hl : (eraseAll (insertAll (insertAll existing false r.sub).fst (insertAll existing false r.sub).snd r.init).fst
+      (insertAll (insertAll existing false r.sub).fst (insertAll existing false r.sub).snd r.init).snd r.unsub).fst = l
+  have hmem : x ∈ l ↔ (x ∈ existing ∨ x ∈ r.sub ∨ x ∈ r.init) ∧ x ∉ r.unsub := by
+    rw [← hl, mem_eraseAll, mem_insertAll, mem_insertAll]
+    simp [or_assoc]
+  by_cases hc : l.contains "*" = true
+  · simp only [hc, if_true, List.mem_filter]
+    rw [hmem]
+    simp [and_assoc]
+  · simp only [hc, Bool.false_eq_true, if_false]
+    rw [hmem]
+    have hstar : "*" ∉ l := by simpa using hc
+    constructor
+    · rintro ⟨h1, h2⟩
+      refine ⟨h1, h2, ?_⟩
+      intro e
+      subst e
+      exact hstar (hmem.mpr ⟨h1, h2⟩)
+    · rintro ⟨h1, h2, _⟩
+      exact ⟨h1, h2⟩
+
+/-- **Record = what the client asked for (delta).**  After a delta request that is neither a
+    rejection nor stale (and whose type keeps a name record: not a generator-managed wildcard
+    watch), the server's record is exactly the fold of the client's subscribe / unsubscribe /
+    retained-names history: old record ∪ subscribed ∪ reported, minus unsubscribed, minus `*`. -/
+theorem delta_record_matches_request (s : State) (r : DReq) (prev : WR) (b : Bool) (s' : State)
+    (herr : r.err = none) (hprev : s r.ty = some prev)
+    (hfresh : r.nonce = "" ∨ r.nonce = prev.nonceSent)
+    (hm : (r.ty.managed && prev.wildcard) = false)
+    (h : shouldRespondDelta s r = .out b s') :
+    ∃ w, s' r.ty = some w ∧ ∀ x, x ∈ w.names ↔
+      ((x ∈ prev.names ∨ x ∈ r.sub ∨ x ∈ r.init) ∧ x ∉ r.unsub ∧ x ≠ "*") := by
+  rw [delta_fresh_branch s r prev herr hprev hfresh] at h
+  injection h with _ hs
+  refine ⟨deltaUpdate prev r, by rw [← hs]; simp, ?_⟩
+  intro x
+  have hn : (deltaUpdate prev r).names = (deltaWatched prev.names r).1 := by
+    unfold deltaUpdate deltaNames
+    simp only [hm, Bool.false_eq_true, if_false]
+    split <;> rfl
+  rw [hn]
+  exact mem_deltaWatched prev.names r x
+
+/-- The same for the first request of a type on a stream (fresh or reconnect): the record is what was
+    subscribed or reported as retained. -/
+theorem delta_first_record (s : State) (r : DReq) (hnone : s r.ty = none) (herr : r.err = none)
+    (hm : (r.ty.managed && (deltaWatched [] r).2.1) = false) :
+    ∃ s' w, shouldRespondDelta s r = .out true s' ∧ s' r.ty = some w ∧
+      ∀ x, x ∈ w.names ↔ ((x ∈ r.sub ∨ x ∈ r.init) ∧ x ∉ r.unsub ∧ x ≠ "*") := by
+  have hsr : shouldRespondDelta s r = .out true (s.set r.ty (some
+      { names := if (r.ty.managed && (deltaWatched [] r).2.1) = true then [] else (deltaWatched [] r).1,
+        wildcard := (deltaWatched [] r).2.1 })) := by
+    simp only [shouldRespondDelta, shouldRespondDeltaG, herr, hnone]
+  refine ⟨_, { names := if (r.ty.managed && (deltaWatched [] r).2.1) = true then [] else (deltaWatched [] r).1,
+               wildcard := (deltaWatched [] r).2.1 }, hsr, State.set_same _ _ _, ?_⟩
+  intro x
+  simp only [hm, Bool.false_eq_true, if_false]
+  rw [mem_deltaWatched]
+  simp
+
 /-! ## Non-vacuity: concrete states meeting the hypotheses above -/
 
 def exState : State := (State.empty.set .eds (some { names := ["a"], nonceSent := "n1" }))
